@@ -96,3 +96,32 @@ Proof.
   intros. unfold agg_dualproj, agg_upgrad. rewrite pref_weights_bad by assumption. split; reflexivity.
 Qed.
 Print Assumptions C03_bad_pref_rejected.
+
+(* ---- the explanatory clause (added): without regularisation the QP answer IS the projection of
+   u.J onto the dual cone {y | J y >= 0} (variational and closest-point forms), derived from
+   is_min alone ---- *)
+From TJ.proofs Require Import C18Proofs MgdaProofs PublishedProofs.
+Theorem C03_is_dual_cone_projection : forall n J u w, wfmat n J -> is_min (length J) (gramR J) u w ->
+  let x := vmR n w J in
+  let p := vmR n u J in
+  dual_cone J x /\
+  (forall y, length y = n -> dual_cone J y -> 0 <= dotR (vsubR x p) (vsubR y x)) /\
+  (forall y, length y = n -> dual_cone J y ->
+     dotR (vsubR x p) (vsubR x p) <= dotR (vsubR y p) (vsubR y p)).
+Proof. exact dual_cone_projection. Qed.
+Print Assumptions C03_is_dual_cone_projection.
+Theorem C03_dualproj_unregularised : forall n J s ne pref qp,
+  wfmat n J -> J <> [] -> 0 < s -> nltb RN s ne = false -> pref_ok pref (length J) ->
+  let m := length J in
+  let u := pref_u pref m in
+  let M := reg_norm_gramian RN (gramR J) s ne 0 in
+  is_min m M u (qp M u) ->
+  let x := vmR n (qp M u) J in
+  let p := vmR n u J in
+  agg_dualproj RN qp pref s ne 0 J = Ok x /\
+  dual_cone J x /\
+  (forall y, length y = n -> dual_cone J y -> 0 <= dotR (vsubR x p) (vsubR y x)) /\
+  (forall y, length y = n -> dual_cone J y ->
+     dotR (vsubR x p) (vsubR x p) <= dotR (vsubR y p) (vsubR y p)).
+Proof. exact dualproj_unregularised_projection. Qed.
+Print Assumptions C03_dualproj_unregularised.
